@@ -32,7 +32,7 @@ def run(ctx):
     ctx.cov["tlc_generated_cases"] = len(cases)
     cases = B.sample(ctx, cases, ctx.pick(3000, 10**9))
     ctx.cov["tlc_generated_cases_replayed"] = len(cases)
-    events = B.run_driver(ctx, "fund", ctx.pick(1500, 40000), cases)
+    events = B.run_driver(ctx, "fund", ctx.pick(1500, 250000), cases)
     rejects = B.validate(ctx, events)
     handle(ctx, events, rejects)
     fe = [e for e in events if e["ev"] == "fund"]
